@@ -351,12 +351,112 @@ Proof.
     split; auto. intros w Hw. rewrite B; auto. rewrite D1; auto.
 Qed.
 
+Lemma upd_same_id : forall A (l : list A) i x, nth_error l i = Some x -> upd l i x = l.
+Proof. induction l; destruct i; simpl; intros; try discriminate; auto. congruence. f_equal. auto. Qed.
+
+Lemma nth_getd : forall A (d : A) l i, i < length l -> nth_error l i = Some (getd d l i).
+Proof. unfold getd. induction l; destruct i; simpl; intros; try lia; auto. apply IHl. lia. Qed.
+
+Lemma onat_dec : forall a b : option nat, {a = b} + {a <> b}.
+Proof. decide equality. apply Nat.eq_dec. Qed.
+
+(* objectGoArrayReflect.swap: values exchanged, the cached wrappers follow their values *)
+Lemma swap_pres : forall s i j, inv s ->
+  inv (fst (istep s (PSwap i j))) /\ (forall w, wdenote (fst (istep s (PSwap i j))) w = wdenote s w).
+Proof.
+  intros s i j I. simpl.
+  destruct (nth_error (i_arr V s) i) as [vi|] eqn:Ei; [|split; auto].
+  destruct (nth_error (i_arr V s) j) as [vj|] eqn:Ej; [|split; auto].
+  simpl. destruct I as [L [B C]].
+  assert (Hi : i < length (i_arr V s)) by (eapply nth_some_lt; eauto).
+  assert (Hj : j < length (i_arr V s)) by (eapply nth_some_lt; eauto).
+  assert (Eci : nth_error (i_cache V s) i = Some (getd None (i_cache V s) i)) by (apply nth_getd; lia).
+  assert (Ecj : nth_error (i_cache V s) j = Some (getd None (i_cache V s) j)) by (apply nth_getd; lia).
+  set (ci := getd None (i_cache V s) i) in *. set (cj := getd None (i_cache V s) j) in *.
+  assert (Fa : forall a, ci = Some a -> nth_error (i_ws V s) a = Some (Live i)) by (intros a E; apply B; rewrite Eci, E; auto).
+  assert (Fb : forall b, cj = Some b -> nth_error (i_ws V s) b = Some (Live j)) by (intros b E; apply B; rewrite Ecj, E; auto).
+  destruct (Nat.eq_dec i j) as [e|NE].
+  - (* i = j: nothing changes *)
+    subst j. assert (vj = vi) by congruence. subst vj.
+    assert (cj = ci) by reflexivity.
+    rewrite (upd_same_id _ (i_arr V s) i vi Ei). rewrite (upd_same_id _ (i_arr V s) i vi Ei).
+    replace (upd (upd (i_cache V s) i ci) i cj) with (i_cache V s)
+      by (rewrite (upd_same_id _ (i_cache V s) i ci Eci); symmetry; apply upd_same_id; auto).
+    assert (W : match cj with
+                | Some w => upd match ci with Some w0 => upd (i_ws V s) w0 (Live i) | None => i_ws V s end w (Live i)
+                | None => match ci with Some w0 => upd (i_ws V s) w0 (Live i) | None => i_ws V s end
+                end = i_ws V s).
+    { rewrite H. destruct ci as [a|]; auto.
+      rewrite (upd_same_id _ (i_ws V s) a (Live i) (Fa a eq_refl)). apply upd_same_id. auto. }
+    rewrite W. split; [split; [|split]; auto|]. intros w. reflexivity.
+  - (* i <> j *)
+    set (ws1 := match ci with Some w => upd (i_ws V s) w (Live j) | None => i_ws V s end).
+    set (ws2 := match cj with Some w => upd ws1 w (Live i) | None => ws1 end).
+    set (c2 := upd (upd (i_cache V s) j ci) i cj).
+    assert (Lw1 : length ws1 = length (i_ws V s)) by (unfold ws1; destruct ci; auto; apply upd_length).
+    assert (Nab : forall a b, ci = Some a -> cj = Some b -> a <> b).
+    { intros a b Ea Eb Eab. subst b. pose proof (Fa a Ea) as X1. pose proof (Fb a Eb) as X2. rewrite X1 in X2. inversion X2. congruence. }
+    assert (W2b : forall b, cj = Some b -> nth_error ws2 b = Some (Live i)).
+    { intros b Eb. unfold ws2. rewrite Eb. apply nth_upd_same. rewrite Lw1. eapply nth_some_lt. apply (Fb b Eb). }
+    assert (W2a : forall a, ci = Some a -> nth_error ws2 a = Some (Live j)).
+    { intros a Ea. unfold ws2. assert (X : nth_error ws1 a = Some (Live j)).
+      { unfold ws1. rewrite Ea. apply nth_upd_same. eapply nth_some_lt. apply (Fa a Ea). }
+      destruct cj as [b|] eqn:Eb; auto. rewrite nth_upd_other; auto. intro; subst. eapply Nab; eauto. }
+    assert (W2o : forall w, ci <> Some w -> cj <> Some w -> nth_error ws2 w = nth_error (i_ws V s) w).
+    { intros w Na Nb. unfold ws2, ws1. destruct cj as [b|]; destruct ci as [a|];
+        repeat (rewrite nth_upd_other by congruence); auto. }
+    assert (C2i : nth_error c2 i = Some cj).
+    { unfold c2. apply nth_upd_same. rewrite upd_length. lia. }
+    assert (C2j : nth_error c2 j = Some ci).
+    { unfold c2. rewrite nth_upd_other by auto. apply nth_upd_same. lia. }
+    assert (C2o : forall k, k <> i -> k <> j -> nth_error c2 k = nth_error (i_cache V s) k).
+    { intros k Ki Kj. unfold c2. rewrite !nth_upd_other by auto. reflexivity. }
+    assert (A2i : nth_error (upd (upd (i_arr V s) i vj) j vi) i = Some vj).
+    { rewrite nth_upd_other by auto. apply nth_upd_same. auto. }
+    assert (A2j : nth_error (upd (upd (i_arr V s) i vj) j vi) j = Some vi).
+    { apply nth_upd_same. rewrite upd_length. auto. }
+    assert (A2o : forall k, k <> i -> k <> j ->
+                  nth_error (upd (upd (i_arr V s) i vj) j vi) k = nth_error (i_arr V s) k).
+    { intros. rewrite !nth_upd_other by auto. reflexivity. }
+    (* where a Live wrapper other than the two cached ones can sit *)
+    assert (Oth : forall w k, ci <> Some w -> cj <> Some w -> nth_error (i_ws V s) w = Some (Live k) -> k <> i /\ k <> j).
+    { intros w k Na Nb E. pose proof (C _ _ E) as X. split; intro; subst k.
+      - rewrite Eci in X. congruence.
+      - rewrite Ecj in X. congruence. }
+    fold ws1. fold ws2. fold c2.
+    split; [split; [|split]|]; simpl.
+    + unfold c2. rewrite !upd_length. auto.
+    + intros k w H.
+      destruct (Nat.eq_dec k i); [subst k; rewrite C2i in H; apply W2b; congruence|].
+      destruct (Nat.eq_dec k j); [subst k; rewrite C2j in H; apply W2a; congruence|].
+      rewrite C2o in H by auto. pose proof (B _ _ H) as X.
+      rewrite W2o; auto.
+      * intro E. pose proof (Fa w E). rewrite X in H0. congruence.
+      * intro E. pose proof (Fb w E). rewrite X in H0. congruence.
+    + intros w k H.
+      destruct (onat_dec cj (Some w)) as [Eb|Nb].
+      { rewrite (W2b w Eb) in H. inversion H; subst k. rewrite C2i. congruence. }
+      destruct (onat_dec ci (Some w)) as [Ea|Na].
+      { rewrite (W2a w Ea) in H. inversion H; subst k. rewrite C2j. congruence. }
+      rewrite W2o in H by auto. destruct (Oth w k Na Nb H) as [Ki Kj].
+      rewrite C2o by auto. apply C. auto.
+    + intros w. unfold Model.wdenote. simpl.
+      destruct (onat_dec cj (Some w)) as [Eb|Nb].
+      { rewrite (W2b w Eb), (Fb w Eb). rewrite A2i. auto. }
+      destruct (onat_dec ci (Some w)) as [Ea|Na].
+      { rewrite (W2a w Ea), (Fa w Ea). rewrite A2j. auto. }
+      rewrite W2o by auto. destruct (nth_error (i_ws V s) w) as [[k|v]|] eqn:E; auto.
+      destruct (Oth w k Na Nb E) as [Ki Kj]. apply A2o; auto.
+Qed.
+
 Definition is_swap (o : pop V U) : bool := match o with PSwap _ _ => true | _ => false end.
 
-Lemma istep_pres : forall s o w, inv s -> is_swap o = false ->
+Lemma istep_pres : forall s o w, inv s ->
   inv (fst (istep s o)) /\ (Model.touches V U s w o = false -> wdenote s w <> None -> wdenote (fst (istep s o)) w = wdenote s w).
 Proof.
-  intros s o w I NS. destruct o; simpl in NS; try discriminate; simpl.
+  intros s o w I. destruct (is_swap o) eqn:NS.
+  { destruct o; try discriminate. destruct (swap_pres s i j I) as [A B]. split; auto. }
+  destruct o; simpl in NS; try discriminate; simpl.
   - (* PGet *)
     destruct (Nat.ltb_spec i (length (i_arr V s))); [|split; auto].
     destruct (nth_error (i_cache V s) i) as [[w0|]|] eqn:E; simpl; [split; auto| |].
@@ -416,9 +516,9 @@ Proof.
   - (* PDump *) split; auto.
 Qed.
 
-Lemma wdenote_defined_stays : forall s o w, inv s -> is_swap o = false ->
+Lemma wdenote_defined_stays : forall s o w, inv s ->
   Model.touches V U s w o = false -> wdenote s w <> None -> wdenote (fst (istep s o)) w <> None.
-Proof. intros. destruct (istep_pres s o w H H0) as [_ D]. rewrite D; auto. Qed.
+Proof. intros. destruct (istep_pres s o w H) as [_ D]. rewrite D; auto. Qed.
 
 Fixpoint noswap (ops : list (pop V U)) : bool :=
   match ops with [] => true | o :: r => negb (is_swap o) && noswap r end.
@@ -437,25 +537,23 @@ Proof.
   - intros w i H. destruct w; discriminate.
 Qed.
 
-Lemma inv_run : forall ops s, inv s -> noswap ops = true -> inv (fst (Model.irun V zero U app s ops)).
+Lemma inv_run : forall ops s, inv s -> inv (fst (Model.irun V zero U app s ops)).
 Proof.
-  induction ops; intros s I N.
+  induction ops; intros s I.
   - simpl. auto.
-  - rewrite irun_cons. simpl in N. apply andb_prop in N. destruct N as [N1 N2].
-    apply IHops; auto. apply (istep_pres s a 0 I). destruct (is_swap a); auto; discriminate.
+  - rewrite irun_cons. apply IHops; auto. apply (istep_pres s a 0 I).
 Qed.
 
-Lemma stable_run : forall ops s w, inv s -> noswap ops = true ->
+Lemma stable_run : forall ops s w, inv s ->
   Model.untouched V zero U app s w ops = true -> wdenote s w <> None ->
   wdenote (fst (Model.irun V zero U app s ops)) w = wdenote s w.
 Proof.
-  induction ops; intros s w I N T Hw.
+  induction ops; intros s w I T Hw.
   - reflexivity.
-  - rewrite irun_cons. simpl in N, T. apply andb_prop in N. destruct N as [N1 N2].
+  - rewrite irun_cons. simpl in T.
     apply andb_prop in T. destruct T as [T1 T2].
-    assert (NS : is_swap a = false) by (destruct (is_swap a); auto; discriminate).
     assert (TT : Model.touches V U s w a = false) by (destruct (Model.touches V U s w a); auto; discriminate).
-    destruct (istep_pres s a w I NS) as [I1 D1].
+    destruct (istep_pres s a w I) as [I1 D1].
     rewrite IHops; auto. rewrite D1; auto.
 Qed.
 
